@@ -2074,6 +2074,12 @@ func (app *App) findBestStreamFrom(node *mysql.Node, clusterState map[string]*no
 			}
 		}
 
+		if candidateState == nil {
+			// stream_from points to a host that is not registered (any more): look further along the chain
+			loopDetector = append(loopDetector, streamFrom)
+			continue
+		}
+
 		hasReasonableLag := candidateState.IsMaster || (candidateState.SlaveState != nil &&
 			candidateState.SlaveState.ReplicationState == mysql.ReplicationRunning &&
 			candidateState.SlaveState.ReplicationLag != nil &&
